@@ -9,6 +9,9 @@ Predicates (Python, on the implementation's outputs): non-negativity, KKT (scale
 arithmetic), objective equal to the constructed optimum and to scipy.optimize.nnls for converged runs; approximate
 optimality of single calls with the default n_iter_max / tol / lr; admm == numpy.linalg.solve.
 Problems are CONSTRUCTED from a chosen KKT pair (x*, mu*) over small dyadic rationals, so the exact optimum is known.
+Static tie (C13_tie.py): the row update / stopping rule / cold start of hals_nnls, the step / momentum / norm / stopping rule of
+fista and the n_const=None branch of admm are translated from the Python ast of the current source on every run and proved
+equal to the model's terms by coqc (fail closed).
 corpus/C13/*.json (the two defects repaired by 5f3eaf7 and dadc3ff) runs first.  A per-case timeout is counted as
 skipped (histogram "skipped"), never a verdict."""
 import contextlib, io, math, random
@@ -190,7 +193,15 @@ def run_fista_converged(p, x0, eps=0.0, lr=None, arrays=None):
 # The three defects found by this check (hals_nnls cold start 0/0, active_set_nnls rounding residue on the blocking
 # coordinate, fista stopping on the signed sum of the step) were repaired in /repo (5f3eaf7, dadc3ff, f4b2876); their
 # witnesses live in corpus/C13/*.json and run first.
-CLASSIFIERS = {}     # no known finding at present
+# Open (round 5): fista(ridge_coef=None) raises TypeError although the docstring offers `float or None`
+# (known_findings.d/C13.json: fista_ridge_coef_none; candidate repair build/fix_candidates/C13_fista_ridge_none.diff).
+def _clf_fista_ridge_none(f):
+    """fista called through its entry point with the documented value ridge_coef=None raises TypeError"""
+    inp = f.get("inputs") or {}
+    return bool(inp.get("entry_call")) and "ridge_coef" in inp and inp.get("ridge_coef") is None and "TypeError" in str(f.get("message", ""))
+
+
+CLASSIFIERS = {"fista_ridge_none": _clf_fista_ridge_none}
 
 
 def _load_known_with_own_snippet():
@@ -250,8 +261,8 @@ def inputs_json(p, **kw):
 # ----------------------------------------------------------------------------- case generation
 def tiers(tier):
     if tier == "quick":
-        return dict(nprob=30, npass=40, nfista=24, nas=56, nadmm=10, aswarm=80, ncold=12, nfista2=10, nseq=8)
-    return dict(nprob=240, npass=400, nfista=160, nas=640, nadmm=60, aswarm=1500, ncold=100, nfista2=80, nseq=80)
+        return dict(nprob=30, npass=40, nfista=24, nas=56, nadmm=10, aswarm=80, ncold=12, nfista2=10, nseq=8, ncall=8)
+    return dict(nprob=240, npass=400, nfista=160, nas=640, nadmm=60, aswarm=1500, ncold=100, nfista2=80, nseq=80, ncall=48)
 
 
 def dyadic_start(rng, r, n, kind):
@@ -311,6 +322,10 @@ def run(chk):
     # (reported to the coordinator); drop exactly that pseudo-entry, keep every real one
     chk.axioms = {k: [a for a in v if a != "Axioms"] for k, v in chk.axioms.items()}
     chk.broken = [b for b in chk.broken if not (str(b.get("what", "")).endswith("depends on non-stdlib axioms") and b.get("detail") == ["Axioms"])]
+    # static tie (harness/props/C13_tie.py): the arithmetic of the CURRENT source of the solvers is translated from its Python ast and
+    # coqc proves that Model/Nnls.v computes exactly these terms; an untranslatable construct is a broken tie (fail closed)
+    from harness.props import C13_tie
+    C13_tie.run_ast_tie(chk)
     C.reset_backends()
     import tensorly as tl
     from tensorly.solvers.nnls import hals_nnls, fista, active_set_nnls
@@ -761,6 +776,42 @@ def run(chk):
             if msg:
                 chk.finding(EP_FISTA, dict(inp2, protocol="run to convergence (restarted, tol=0)", x0=None, epsilon=0.0), msg, "C13_kkt_optimal", observed=Vc)
 
+    # ---------------- C''. the ENTRY POINT fista with its argument handling (Model/NnlsEntry.v fista_call): sparsity_coef / ridge_coef /
+    # lr / x passed as None or as numbers, tol = 0 (no stopping decision).  ridge_coef=None is offered by the docstring and raises
+    # TypeError: known finding fista_ridge_coef_none (the model says Err as well, so the correspondence holds on the code as it is)
+    for t in range(T["ncall"]):
+        r, n = rng.randint(1, 5), rng.randint(1, 3)
+        sp_arg = rng.choice([None, None, 0.0, 0.25])
+        rd_arg = None if t % 4 == 0 else rng.choice([0.0, 0.125, 0.5])
+        p = gen_problem(rng, r, n, rng.random() < 0.5, sp_arg or 0.0, rd_arg or 0.0)
+        G, B = p["G"], p["B"]
+        K = rng.choice([1, 2, 3]); nonneg = rng.random() < 0.8; eps = rng.choice([0.0, 1e-8])
+        sigma = float(np.linalg.norm(G, 2))
+        lr_arg = None if rng.random() < 0.5 else float(Fr(1) / Fr(sigma + 2 * (rd_arg or 0.0)))
+        x0 = None if rng.random() < 0.5 else dyadic_start(rng, r, n, rng.choice(["dense", "sparse", "infeasible"]))
+        inp = {"UtM": B, "UtU": G, "l1": sp_arg or 0.0, "l2": rd_arg or 0.0, "sparsity_coef": sp_arg, "ridge_coef": rd_arg, "lr": lr_arg, "x0": x0,
+               "epsilon": eps, "n_iter_max": K, "non_negative": nonneg, "entry_call": True}
+        try:
+            st, V = impl_call(chk, lambda: fista(B.copy(), G.copy(), x=None if x0 is None else x0.copy(), n_iter_max=K, non_negative=nonneg,
+                                                 sparsity_coef=sp_arg, ridge_coef=rd_arg, lr=lr_arg, tol=0, epsilon=eps))
+        except Skip:
+            continue
+        chk.count(key=("fista-call", r, n, sp_arg is None, rd_arg is None, lr_arg is None, x0 is None, K, nonneg), nontrivial=r * n > 1)
+        chk.hist("solver", "fista/entry-call"); chk.hist("fista_call_ridge", "None" if rd_arg is None else "number")
+        if st == "crash" or (st == "ok" and not finite(V)):
+            chk.finding(EP_FISTA, inp, f"fista failed on documented arguments: {V}", "C13_fista_returns")
+            continue
+        if st == "reject":
+            chk.finding(EP_FISTA, inp, f"fista raised on documented arguments: {V}", "C13_fista_returns")
+        impl = "Err" if st == "reject" else f"(Ok {mat_lit(V)})"
+        x0l = "None" if x0 is None else f"(Some {mat_lit(x0)})"
+        betas = fista_betas(K)
+        add_case(lambda cid: (f"(CFistaCall {cid}%nat {mat_lit(B)} {mat_lit(G)} {n}%nat {C.boolc(nonneg)} {optq(sp_arg)} {optq(rd_arg)} {optq(lr_arg)} "
+                              f"{C.q(sigma)} {C.q(eps)} {x0l} {C.q_list(betas)} {impl})"),
+                 ("call-fista", r, n, K, sp_arg, rd_arg, lr_arg is None, x0 is None))
+        if st == "ok" and nonneg and float(np.min(V)) < eps:
+            chk.finding(EP_FISTA, inp, f"iterate below epsilon: {float(np.min(V))}", "C13_fista_iterates_ge_eps", observed=V)
+
     # ---------------- D. active set: model (exact elimination, exact step) vs implementation
     as_inputs = [(p, x0, 100) for p, x0 in as_corpus]
     for t in range(T["nas"]):
@@ -905,6 +956,13 @@ def replay(payload):
             prev = np.asarray(V, dtype=float)
         print("replay: sequence", inp["sequence"], "->", msg or "holds")
         return 1 if msg else 0
+    if inp.get("entry_call"):
+        st, V = C.call_impl(lambda: fista(arr(inp["UtM"]), arr(inp["UtU"]), x=arr(inp.get("x0")), n_iter_max=int(inp.get("n_iter_max", 1)),
+                                          non_negative=bool(inp.get("non_negative", True)), sparsity_coef=inp.get("sparsity_coef"),
+                                          ridge_coef=inp.get("ridge_coef"), lr=inp.get("lr"), tol=0, epsilon=float(inp.get("epsilon", 0.0))))
+        bad = st != "ok" or not finite(V) or (bool(inp.get("non_negative", True)) and float(np.min(V)) < float(inp.get("epsilon", 0.0)))
+        print("replay: fista entry call ->", f"fails ({V})" if st != "ok" else ("fails" if bad else "holds"))
+        return 1 if bad else 0
     if inp.get("list_UtU"):
         A, Bm = [arr(v) for v in inp["UtU"]]
         UtM2 = arr(inp["UtM"]); l1, l2 = float(inp.get("l1", 0.0)), float(inp.get("l2", 0.0))
